@@ -61,6 +61,7 @@ def run_workers(prop, tier, seed, bins, subs_env):
         cmd = [env.PY, "-m", "vlib.worker", prop, "--tier", tier, "--seed", str(seed),
                "--items", ",".join(map(str, b)), "--out", out]
         e = env.worker_env(extra=subs_env.get(k))
+        e["VERIF_BREADCRUMB"] = os.path.join(tmp, f"w{k}.crumb")
         log = open(os.path.join(tmp, f"w{k}.log"), "w")
         procs.append((subprocess.Popen(cmd, cwd=HERE, env=e, stdout=log, stderr=subprocess.STDOUT), out, log, k))
     results = []
@@ -70,8 +71,20 @@ def run_workers(prop, tier, seed, bins, subs_env):
         if os.path.exists(out):
             r = json.load(open(out))
         else:
-            tail = open(log.name).read()[-3000:]
-            r = dict(status="harness_error", error=f"worker {k} died rc={rc}: {tail}")
+            tail = open(log.name).read()[-1500:]
+            crumb = os.path.join(tmp, f"w{k}.crumb")
+            if rc < 0 and os.path.exists(crumb):
+                # the process was killed by a signal while running a case: that case is the finding
+                from vlib import core
+
+                c = json.load(open(crumb))
+                v = core.Violation(f"crash:signal{-rc}", f"worker process died with signal {-rc} while running this case")
+                path = core.save_replay(prop, c["sub"], c["case"], v)
+                r = dict(status="ok", failures=[dict(sub=c["sub"], variant="-", bucket=f"{c['sub']}|{v.kind}", kind=v.kind,
+                                                     message=v.msg, replay=path, case=c["case"])],
+                         notes=[f"worker {k} crashed rc={rc} 0.0s"])
+            else:
+                r = dict(status="harness_error", error=f"worker {k} died rc={rc}: {tail}")
         if rc not in (0, 2) and r.get("status") == "ok":
             r["status"] = "harness_error"
             r["error"] = f"worker {k} rc={rc}"
@@ -91,7 +104,10 @@ def replay_one(prop, path):
     try:
         r = json.load(open(out))
     except Exception:
-        r = dict(error=(p.stdout + p.stderr)[-3000:])
+        if p.returncode < 0:
+            r = dict(failed=True, kind=f"crash:signal{-p.returncode}", message="replay process died", known=None)
+        else:
+            r = dict(error=(p.stdout + p.stderr)[-3000:])
     os.unlink(out)
     return r
 
